@@ -414,7 +414,7 @@ def classify(code, seq):
 
 def run(ctx):
     rng = ctx.rng
-    n = ctx.scale(3000, 120000)
+    n = ctx.scale(2400, 40000)
     corpus = ["a. b. c.\n", "foo('a\\zb', 1). bar. baz.\n", "foo(a b). bar.\n", "foo(a)) . bar.\n", "foo('abc). bar.\n", "foo. /* unterminated bar.\n",
               "foo. bar", "foo. 0'", "foo(\x00). bar.\n", "f(\x01). c.\n", "a.\n\n", "a. % c\n", "f(`abc`). c.\n", "f(\"ab\\zc\"). c.\n", "f(a.\n g(b). h.\n",
               "X = 'a\\x41\\b'. c.\n", "f('a\\\nb'). c.\n", "a :- b, c ; d -> e. x = y. 1 < 2. a* b+c.\n", "f(A,B,A,_). g(_X, Y, Y).\n", "", "f(\xa0). c.\n",
